@@ -4,11 +4,14 @@ package main
 
 import (
 	"bufio"
+	"bytes"
 	"encoding/json"
 	"fmt"
 	"io"
 	"os"
 	"os/exec"
+	"strconv"
+	"strings"
 )
 
 type Model struct {
@@ -76,4 +79,41 @@ func (m *Model) Call(req map[string]interface{}, res interface{}) error {
 		return nil
 	}
 	return json.Unmarshal(env.Ok, res)
+}
+
+// Exact is a JSON value of the model driver decoded without loss: an integer literal beyond 2^53 becomes
+// an int64 (encoding/json's float64 would round it), every other number a float64
+type Exact struct{ V interface{} }
+
+func (e *Exact) UnmarshalJSON(b []byte) error {
+	dec := json.NewDecoder(bytes.NewReader(b))
+	dec.UseNumber()
+	var raw interface{}
+	if err := dec.Decode(&raw); err != nil {
+		return err
+	}
+	var walk func(x interface{}) interface{}
+	walk = func(x interface{}) interface{} {
+		switch t := x.(type) {
+		case json.Number:
+			if s := t.String(); !strings.ContainsAny(s, ".eE") {
+				if i, err := strconv.ParseInt(s, 10, 64); err == nil && (i > 1<<53 || i < -(1<<53)) {
+					return i
+				}
+			}
+			f, _ := t.Float64()
+			return f
+		case []interface{}:
+			for i := range t {
+				t[i] = walk(t[i])
+			}
+		case map[string]interface{}:
+			for k := range t {
+				t[k] = walk(t[k])
+			}
+		}
+		return x
+	}
+	e.V = walk(raw)
+	return nil
 }
